@@ -282,13 +282,18 @@ def run(ctx, replay):
     # ---- (T) + rows ---------------------------------------------------------
     asis_runs, asis_pool = [], None
     if replay:
-        obj = json.load(open(replay))
-        rows = [obj["row"]]
-        rows[0]["id"] = 1
+        try:
+            obj = json.load(open(replay))
+            rows = [obj["row"]]
+            rows[0]["id"] = 1
+            if rows[0]["in"]["sub"] not in SUBS:
+                raise KeyError("sub")
+        except (OSError, ValueError, KeyError, TypeError) as e:
+            raise vlib.Infra("cannot read the replay file %s: %r" % (replay, e))
     else:
         sizes = {
-            "milter": dict(maxrcpt=2, full="TRUE" if thorough else "FALSE", randn=20000 if thorough else 1500),
-            "rspamd": dict(full="TRUE" if thorough else "FALSE", randn=10000 if thorough else 800),
+            "milter": dict(maxrcpt=2, full="TRUE" if thorough else "FALSE", randn=50000 if thorough else 1500),
+            "rspamd": dict(full="TRUE" if thorough else "FALSE", randn=20000 if thorough else 800),
         }
 
         def gen(sub):
@@ -423,12 +428,7 @@ def run(ctx, replay):
             print("REPLAY ext=X07 verdict of TLC: accepted as conforming")
 
     # ---- verdicts ------------------------------------------------------------------
-    drift = 0
-    finding_rows = {}
-    preds = {}
-    for t, v in sorted(verdicts.items()):
-        row, ev = by_id[t], ev_by_t[t]
-        outs = proj_out(ev["out"])
+    def explain(v):
         devsets = sorted((sorted(d, key=DEVS.index) for d in v["devs"]),
                          key=lambda d: (len(d), [DEVS.index(x) for x in d]))
         minimal = devsets[0] if devsets else None
@@ -438,6 +438,53 @@ def run(ctx, replay):
             for d in minimal:
                 allowed |= set(open_by_dev[d]["match"].get("predicates", []))
             explained = set(v["viol"]) <= allowed
+        return minimal, explained
+
+    # The rows talk to their scanners over real sockets with the modules' real time-outs; on a starved machine a
+    # time-out can fire in a row that does not script one.  A row that violates the property is therefore run a
+    # second time, on its own, and reported when the violation shows again (a defect of the modules does; they
+    # are sequential code).  Rows that do not reproduce are listed as UNCONFIRMED in the output and the evidence.
+    unconfirmed = []
+    suspects = [t for t, v in sorted(verdicts.items()) if v["viol"] and not explain(v)[1] and t not in {c[0] for c in crashed}]
+    if suspects and not replay:
+        again = suspects[:400]
+        ev2 = [e for e in ctx.run_shards(binary, [{"id": t, "in": by_id[t]["in"]} for t in again], timeout=1500,
+                                         name="confirm", shards=min(4, len(again))) if e["e"] == "Row"]
+        if len(ev2) != len(again):
+            raise vlib.Infra("confirmation run answered %d of %d rows" % (len(ev2), len(again)))
+        v2 = {}
+        for sub in SUBS:
+            evs = [project(e) for e in ev2 if e["in"]["sub"] == sub]
+            if evs:
+                vv, _ = vtable.validate_rows(ctx, SUBS[sub]["module"] + "Trace",
+                                             TRACE_CFG[sub] % dict(open=q(d for d in open_by_dev if d in SUBS[sub]["devs"])),
+                                             evs, name="confirm-" + sub, batch=2500, par=4, timeout=1800)
+                v2.update(vv)
+        for e in ev2:
+            t = e["t"]
+            nv = v2.get(t)
+            if nv is None or not nv["viol"] or explain(nv)[1]:
+                unconfirmed.append({"row": t, "first": sorted(verdicts[t]["viol"]), "in": brief(by_id[t]["in"]),
+                                    "first_out": brief_out(proj_out(ev_by_t[t]["out"]))})
+                print(("UNCONFIRMED ext=X07 row=%d violated %s once, not on re-run: %s" % (
+                    t, ",".join(sorted(verdicts[t]["viol"])), brief(by_id[t]["in"])))[:1200])
+                if nv is None:
+                    del verdicts[t]
+                else:
+                    verdicts[t] = nv
+            else:
+                verdicts[t] = nv
+            ev_by_t[t] = e
+        ctx.log("%d violating rows run again: %d confirmed" % (len(again), len(again) - len(unconfirmed)))
+    ctx.cov["unconfirmed_rows"] = unconfirmed
+
+    drift = 0
+    finding_rows = {}
+    preds = {}
+    for t, v in sorted(verdicts.items()):
+        row, ev = by_id[t], ev_by_t[t]
+        outs = proj_out(ev["out"])
+        minimal, explained = explain(v)
         if v["viol"] and not explained:
             for p in v["viol"]:
                 preds[p] = preds.get(p, 0) + 1
